@@ -36,15 +36,17 @@ CLAIMED = {
          "are >= 0; C15_nc_balance_<y> - the D-400 likewise in its overpayment and tax-due branches (28 = 25 - 19, 34 + 33 = 28, "
          "26a = 19 - 25 > 0, the refund pseudo-line agrees); C15_nn_<y>_<i> - about 430 money lines per year: if the lines and inputs "
          "a line reads are >= 0 (except the lines listed with reasons in oracles/may_be_negative.json) its stored value is >= 0. "
+         "C15_signs_<y> assembles these lemmas along the dependency order into ONE theorem per year: if the ~110 boundary lines (helper-function "
+         "lines and per-copy boxes read by the set) and the money inputs are >= 0 and every line of the set holds what its definition yields, "
+         "then all ~430 lines of the set are >= 0. "
          "The proofs go through XexpProofs.xtop_sound (arithmetic reading of a line body = what the interpreter stores, proved for every "
          "store) and Rounding.v (round-half-even is monotone, the identity on its grid, commutes with max/min). The list of sign lemmas "
          "proved on the baseline is frozen (oracles/c15_nonneg.json): one that stops checking is reported. Search: seeded real returns "
          "with non-negative amounts (deductions above income, itemizers, owing, refunds applied forward, dividends-only, NC) - balance and "
          "the sign of EVERY money line not in may_be_negative.json.",
     design_ref='DESIGN.md §4 C15',
-    note="Sign lemmas are local (reads >= 0 => value >= 0); lines defined by helper functions (about 100 per year) and signs that depend "
-         "on relations between lines are covered by the real-return monitor only; the global assembly over the dependency order is "
-         "not a single theorem. Statement over exact decimals (binary64 outside); the monitor uses a half-cent tolerance. "
+    note="Lines defined by helper functions (about 100 per year) are boundary hypotheses of C15_signs_<y>, and signs that depend on relations "
+         "between lines (e.g. 35a = 34 - 36) are in the balance theorems only; both are covered by the real-return monitor. Statement over exact decimals (binary64 outside); the monitor uses a half-cent tolerance. "
          "Print Assumptions: closed under the global context.",
     technique='Rocq theorems (lra/lia over Q, proved rounding lemmas, proved tie xtop_sound to the catalogue interpreter) generated over regenerated line bodies + real-return monitor',
  ),
